@@ -89,6 +89,15 @@ def _add_resolved_field_reference_to_dependencies(reference, dependencies, name)
             dependencies[name] |= {ir_util.hashable_form_of_reference(component)}
 
 
+def _add_sibling_constant_reference_to_dependencies(reference, dependencies, name):
+    """Adds `reference` to the dependencies of `name` if it names a sibling."""
+    # `Foo.k`, written inside `Foo`, is the same field as a plain `k`, but it
+    # is a constant reference, not a field reference.
+    target = ir_util.hashable_form_of_reference(reference)
+    if target[:-1] == name[:-1]:
+        dependencies[name] |= {target}
+
+
 def _add_name_to_dependencies(proto, dependencies):
     name = ir_util.hashable_form_of_reference(proto.name)
     dependencies.setdefault(name, set())
@@ -276,6 +285,22 @@ def _find_dependency_ordering_for_fields(ir):
         [ir_data.FieldReference],
         _add_field_reference_to_dependencies,
         skip_descendants_of={ir_data.Attribute},
+        incidental_actions={
+            ir_data.Field: _add_name_to_dependencies,
+            ir_data.EnumValue: _add_name_to_dependencies,
+            ir_data.RuntimeParameter: _add_name_to_dependencies,
+        },
+        parameters={"dependencies": dependencies},
+    )
+    traverse_ir.fast_traverse_ir_top_down(
+        ir,
+        [ir_data.Reference],
+        _add_sibling_constant_reference_to_dependencies,
+        skip_descendants_of={
+            ir_data.AtomicType,
+            ir_data.Attribute,
+            ir_data.FieldReference,
+        },
         incidental_actions={
             ir_data.Field: _add_name_to_dependencies,
             ir_data.EnumValue: _add_name_to_dependencies,
